@@ -9,6 +9,7 @@ from ..astutil import call_name, const_str, early_exit_guards, guard_texts, guar
 from ..dataflow import ReachingDefs
 from ..callgraph import CallGraph
 from ..loader import AnalysisError, ancestors, norm, parent, walk_own
+from ..interp import Raised
 from ..prov import Prov, xml_sites
 from ..report import Rule
 from .c19 import _row_loop
@@ -503,6 +504,23 @@ def run(ctx):
               necessary="a duplicate accepted because one of the rows lacks a label yields two items with one value")
     choice_list_obligations(ctx, r6, "C17.R6")
     rules.append(r6)
+    # select-from-file rows: the file name must have exactly one suffix and it must be a supported one, for every
+    # spelling of the type (evaluated)
+    import pathlib as _plx
+    vle = ctx.func("pyxform.validators.pyxform.select_from_file:validate_list_name_extension", "C17.R6")
+    sff = ctx.consts.get("pyxform.aliases", "select_from_file", "C17.R6")
+    for cmd in sorted(sff)[:4] + ["select_one"]:
+        for fname, ok_name in (("cities.csv", True), ("cities.xml", True), ("cities.geojson", True), ("cities", False), ("cities.txt", False), ("cities.xml.csv", False), ("data.v2.csv", False),
+                               ("a.b.geojson", False), ("cities.CSV", False), (".csv", False)):
+            itv = ctx.interp("C17.R6", hooks={"ext:pathlib.Path": lambda i, a, k, n: _plx.PurePosixPath(a[0])})
+            itv.reset([])
+            try:
+                itv.call_function(vle, [], {"select_command": cmd, "list_name": fname, "row_number": 5}, None, vle.node)
+                gotv = "accepted"
+            except Raised as e:
+                gotv = "rejected" if ("PyXFormError" in e.mro and "[row : 5]" in str(e.exc_args[0] if e.exc_args else "")) else f"raises {e.exc_name}"
+            wantv = "accepted" if (ok_name or cmd == "select_one") else "rejected"
+            r6.check(gotv == wantv, f"validate_list_name_extension[{cmd} {fname}]", f"{wantv}" + (" with a PyXFormError citing the row" if wantv == "rejected" else ""), vle.loc(), why_fail=gotv)
     from ..rowloop import row_prologue_obligations
     r7 = Rule("C17", "C17.R7", "rows without a type are rejected (comment rows skipped) before anything else reads them", floor=10,
               necessary="a question row whose type cell is empty that is skipped instead of rejected silently vanishes from the form")
